@@ -111,6 +111,9 @@ def block_table(thorough):
           B("Il2pDeframer", {}, "bits", 200),
           B("AuEncode", {"rate": 8000}, "small", 40),
           B("AuDecode", {"rate": 8000}, "bytes", 100, extra={"allow_err": True}),
+          # well-formed AU streams (28- and 40-byte headers), so that the header states are passed in pieces
+          B("AuDecode", {"rate": 8000}, "bytes", 0, extra={"data": [[46, 115, 110, 100, 0, 0, 0, 28, 255, 255, 255, 255, 0, 0, 0, 3, 0, 0, 31, 64, 0, 0, 0, 1, 0, 0, 0, 0] + [(7 * i) % 256 for i in range(60)]]}),
+          B("AuDecode", {"rate": 8000}, "bytes", 0, extra={"data": [[46, 115, 110, 100, 0, 0, 0, 40, 255, 255, 255, 255, 0, 0, 0, 3, 0, 0, 31, 64, 0, 0, 0, 1] + [65] * 16 + [(11 * i) % 256 for i in range(40)]]}),
           B("NullSink<u8>", {}, "bytes", 40),
           B("VectorSink<u8>", {}, "bytes", 40),
           B("VectorSource<Big>", {}, "ramp", 9, big=True),
